@@ -94,6 +94,14 @@ template <class T> static bool fix_pairs(int k, T* x, int nx, T* y, int ny) {
 	for (int i = 0; i < n; ++i) { T& X = x[nx == 1 ? 0 : i]; T& Y = y[ny == 1 ? 0 : i]; if (!op_safe(k, X, Y)) fix_right(k, X, Y); }
 	for (int i = 0; i < n; ++i) { T& X = x[nx == 1 ? 0 : i]; T& Y = y[ny == 1 ? 0 : i]; if (!op_safe(k, X, Y)) fix_left(k, X, Y); }
 	for (int i = 0; i < n; ++i) if (!op_safe(k, x[nx == 1 ? 0 : i], y[ny == 1 ? 0 : i])) return false;
+	if constexpr (is_int<T>::v && std::is_signed<T>::value) {
+		// no MIN dividend next to a -1 divisor in ANY lane: a defect that pairs the wrong lanes must show as a wrong value, not as SIGFPE
+		if (k == K_DIV || k == K_MOD) {
+			bool m1 = false;
+			for (int i = 0; i < ny; ++i) if (y[i] == (T)-1) m1 = true;
+			if (m1) for (int i = 0; i < nx; ++i) if (x[i] == std::numeric_limits<T>::min()) x[i] = (T)(x[i] + 1);
+		}
+	}
 	return true;
 }
 
@@ -108,11 +116,11 @@ template <class T, int L, glm::qualifier Q> struct OpsCase {
 
 	static V mk(const T* p) { V v; for (int i = 0; i < L; ++i) v[i] = p[i]; return v; }
 
-	void cmp(const char* word, const char* tok, int shape, const V& got, const T* want, const T* x, int nx, const T* y, int ny, const char* cls = nullptr) {
+	void cmp(const char* word, const char* tok, const char* shape, const V& got, const T* want, const T* x, int nx, const T* y, int ny, const char* cls = nullptr) {
 		for (int i = 0; i < L; ++i) {
 			if (match<T>(c, BITS, got[i], want[i])) continue;
-			c.failk(key(word, SHAPE[shape], L, in.tn, cls), "%s: (%s %s %s) [%s]: component %d = %s, the built-in operator on component %d gives %s",
-			        in.name.c_str(), showv(x, nx).c_str(), tok, showv(y, ny).c_str(), SHAPE[shape], i, show<T>(got[i]).c_str(), i, show(want[i]).c_str());
+			c.failk(key(word, shape, L, in.tn, cls), "%s: (%s %s %s) [%s]: component %d = %s, the built-in operator on component %d gives %s",
+			        in.name.c_str(), nx ? showv(x, nx).c_str() : "", tok, ny ? showv(y, ny).c_str() : "", shape, i, show<T>(got[i]).c_str(), i, show(want[i]).c_str());
 			return;
 		}
 	}
@@ -127,10 +135,10 @@ template <class T, int L, glm::qualifier Q> struct OpsCase {
 			for (int i = 0; i < L; ++i) { a[i] = a0[i]; b[i] = b0[i]; }
 			if (fix_pairs(k, a, L, b, L)) {
 				for (int i = 0; i < L; ++i) { T r = a[i]; Op::asg(r, b[i]); want[i] = r; }
-				if constexpr (Have<Op, 0, L, T>::v) cmp(Op::word(), Op::tok(), 0, Op::bin(mk(a), mk(b)), want, a, L, b, L);
+				if constexpr (Have<Op, 0, L, T>::v) cmp(Op::word(), Op::tok(), SHAPE[0], Op::bin(mk(a), mk(b)), want, a, L, b, L);
 				if constexpr (Have<Op, 5, L, T>::v) {
 					V x = mk(a); V& ret = Op::asg(x, mk(b));
-					cmp(Op::word(), Op::tok(), 5, x, want, a, L, b, L);
+					cmp(Op::word(), Op::tok(), SHAPE[5], x, want, a, L, b, L);
 					if (&ret != &x) c.failk(key(Op::word(), SHAPE[5], L, in.tn, "return-value"), "%s: compound assignment does not return *this", in.name.c_str());
 				}
 				if (L >= 2 && distinct(a, L) && distinct(b, L) && distinct(want, L)) nt = true;
@@ -142,11 +150,11 @@ template <class T, int L, glm::qualifier Q> struct OpsCase {
 			for (int i = 0; i < L; ++i) a[i] = a0[i];
 			if (fix_pairs(k, a, L, &s, 1)) {
 				for (int i = 0; i < L; ++i) { T r = a[i]; Op::asg(r, s); want[i] = r; }
-				if constexpr (Have<Op, 1, L, T>::v) cmp(Op::word(), Op::tok(), 1, Op::bin(mk(a), s), want, a, L, &s, 1);
-				if constexpr (Have<Op, 6, L, T>::v) { V x = mk(a); Op::asg(x, s); cmp(Op::word(), Op::tok(), 6, x, want, a, L, &s, 1); }
+				if constexpr (Have<Op, 1, L, T>::v) cmp(Op::word(), Op::tok(), SHAPE[1], Op::bin(mk(a), s), want, a, L, &s, 1);
+				if constexpr (Have<Op, 6, L, T>::v) { V x = mk(a); Op::asg(x, s); cmp(Op::word(), Op::tok(), SHAPE[6], x, want, a, L, &s, 1); }
 				if constexpr (L > 1) {
-					if constexpr (Have<Op, 3, L, T>::v) cmp(Op::word(), Op::tok(), 3, Op::bin(mk(a), V1(s)), want, a, L, &s, 1);
-					if constexpr (Have<Op, 7, L, T>::v) { V x = mk(a); Op::asg(x, V1(s)); cmp(Op::word(), Op::tok(), 7, x, want, a, L, &s, 1); }
+					if constexpr (Have<Op, 3, L, T>::v) cmp(Op::word(), Op::tok(), SHAPE[3], Op::bin(mk(a), V1(s)), want, a, L, &s, 1);
+					if constexpr (Have<Op, 7, L, T>::v) { V x = mk(a); Op::asg(x, V1(s)); cmp(Op::word(), Op::tok(), SHAPE[7], x, want, a, L, &s, 1); }
 				}
 				bool differs = false;
 				for (int i = 0; i < L; ++i) if (!eq_bits(a[i], s)) differs = true;
@@ -159,8 +167,8 @@ template <class T, int L, glm::qualifier Q> struct OpsCase {
 			for (int i = 0; i < L; ++i) a[i] = b0[i];
 			if (fix_pairs(k, &s, 1, a, L)) {
 				for (int i = 0; i < L; ++i) { T r = s; Op::asg(r, a[i]); want[i] = r; }
-				if constexpr (Have<Op, 2, L, T>::v) cmp(Op::word(), Op::tok(), 2, Op::bin(s, mk(a)), want, &s, 1, a, L);
-				if constexpr (L > 1) { if constexpr (Have<Op, 4, L, T>::v) cmp(Op::word(), Op::tok(), 4, Op::bin(V1(s), mk(a)), want, &s, 1, a, L); }
+				if constexpr (Have<Op, 2, L, T>::v) cmp(Op::word(), Op::tok(), SHAPE[2], Op::bin(s, mk(a)), want, &s, 1, a, L);
+				if constexpr (L > 1) { if constexpr (Have<Op, 4, L, T>::v) cmp(Op::word(), Op::tok(), SHAPE[4], Op::bin(V1(s), mk(a)), want, &s, 1, a, L); }
 				if (L >= 2 && distinct(a, L) && distinct(want, L)) nt = true;
 			}
 		}
@@ -172,7 +180,7 @@ template <class T, int L, glm::qualifier Q> struct OpsCase {
 		const bool wide_signed = std::is_signed<T>::value && is_int<T>::v && sizeof(T) >= 4;
 		// unary plus: identity
 		for (int i = 0; i < L; ++i) a[i] = a0[i];
-		cmp("op-plus", "+", 0, +mk(a), a, a, L, a, 0);
+		cmp("op-plus", "+", "unary", +mk(a), a, a, 0, a, L);
 		// unary minus (BITS: the point of negation is the sign, DESIGN 5.1): -x of the built-in type
 		for (int i = 0; i < L; ++i) { if (wide_signed && a[i] == std::numeric_limits<T>::min()) a[i] = (T)(a[i] + 1); want[i] = (T)(-a[i]); }
 		if constexpr (!std::is_same<T, bool>::value) {
@@ -194,15 +202,15 @@ template <class T, int L, glm::qualifier Q> struct OpsCase {
 			}
 			T inc[4], dec[4];
 			for (int i = 0; i < L; ++i) { T r = a[i]; ++r; inc[i] = r; r = a[i]; --r; dec[i] = r; }
-			{ V x = mk(a); V& r = ++x; cmp("op-inc", "++pre", 0, x, inc, a, L, a, 0); if (&r != &x) c.failk(key("op-inc", "prefix", L, in.tn, "return-value"), "%s: ++v does not return v", in.name.c_str()); }
-			{ V x = mk(a); V& r = --x; cmp("op-dec", "--pre", 0, x, dec, a, L, a, 0); if (&r != &x) c.failk(key("op-dec", "prefix", L, in.tn, "return-value"), "%s: --v does not return v", in.name.c_str()); }
-			{ V x = mk(a); V old = x++; cmp("op-inc", "post++", 1, x, inc, a, L, a, 0); cmp("op-inc", "post++ (returned old value)", 2, old, a, a, L, a, 0); }
-			{ V x = mk(a); V old = x--; cmp("op-dec", "post--", 1, x, dec, a, L, a, 0); cmp("op-dec", "post-- (returned old value)", 2, old, a, a, L, a, 0); }
+			{ V x = mk(a); V& r = ++x; cmp("op-inc", "++", "prefix", x, inc, a, 0, a, L); if (&r != &x) c.failk(key("op-inc", "prefix", L, in.tn, "return-value"), "%s: ++v does not return v", in.name.c_str()); }
+			{ V x = mk(a); V& r = --x; cmp("op-dec", "--", "prefix", x, dec, a, 0, a, L); if (&r != &x) c.failk(key("op-dec", "prefix", L, in.tn, "return-value"), "%s: --v does not return v", in.name.c_str()); }
+			{ V x = mk(a); V old = x++; cmp("op-inc", "++", "postfix", x, inc, a, L, a, 0); cmp("op-inc", "++ (value returned by the postfix form)", "postfix-result", old, a, a, L, a, 0); }
+			{ V x = mk(a); V old = x--; cmp("op-dec", "--", "postfix", x, dec, a, L, a, 0); cmp("op-dec", "-- (value returned by the postfix form)", "postfix-result", old, a, a, L, a, 0); }
 			if (L >= 2 && distinct(a, L)) c.cls("inc-dec");
 		}
 		if constexpr (is_int<T>::v) {
 			for (int i = 0; i < L; ++i) { a[i] = a0[i]; want[i] = (T)(~a[i]); }
-			cmp("op-not", "~", 0, ~mk(a), want, a, L, a, 0);
+			cmp("op-not", "~", "unary", ~mk(a), want, a, 0, a, L);
 			if (L >= 2 && distinct(a, L)) c.cls("bitwise-not");
 		}
 	}
@@ -303,7 +311,7 @@ template <class T> static void regt(Table& t) {
 #define C01_OPS_TARGET(T, N) \
 	static Table& tab_##N() { static Table t; return t; } \
 	static void prop_ops_##N(pbt::Ctx& c) { Table& t = tab_##N(); const Inst& in = t[c.draw(t.size())]; in.run(c, in); } \
-	static const int reg_ops_##N = (regt<T>(tab_##N()), add_target("operators/" #N, prop_ops_##N, tab_##N().size(), 60000, 2000000, \
+	static const int reg_ops_##N = (regt<T>(tab_##N()), add_target("operators/" #N, prop_ops_##N, tab_##N().size(), 60000, 1000000, \
 		"instance = vec<L," #N ",Q> (L 1..4 x qualifiers), every case runs every operator of the type in all 8 overload shapes + unary + ++/-- + ==/!=; operands: structured + random full-range values made sound " \
 		"per operator (shift counts mod width, divisor != 0, no INT_MIN/-1, no signed overflow); non-trivial = L >= 2, pairwise distinct components with pairwise distinct results, scalar operand different from some component (per-operator class counters)"), 0);
 
